@@ -34,6 +34,10 @@ type CrashCase struct {
 	Prefix  string   `json:"prefix,omitempty"`
 	Exclude []string `json:"exclude,omitempty"`
 	Set     []SetKV  `json:"set"`
+	// Symlink: the configuration path is a symbolic link to a file next to it (configuration kept in a shared or
+	// versioned directory and linked into the agent's home). What a reader of the configuration path sees must still be
+	// the old or the new complete content at every instant; whether the link survives the write is not stated.
+	Symlink bool `json:"symlink,omitempty"`
 }
 
 // ---- strace log -------------------------------------------------------------------
@@ -472,6 +476,13 @@ func haveStrace() bool {
 	return straceOK
 }
 
+// traceUnusable: the recorded trace cannot be replayed (a problem of the recording, not of the code under test). The
+// case gets no verdict; the driver turns the run inconclusive when more than a few cases end like this.
+func traceUnusable(format string, a ...interface{}) *pbt.Result {
+	pbt.Note("write-crash-points: trace unusable, no verdict for the case: "+format, a...)
+	return &pbt.Result{Classes: []string{"inconclusive:trace-unusable"}}
+}
+
 func drawCrash(t *rapid.T) CrashCase {
 	pool := genKeyPool(t, rapid.IntRange(2, 6).Draw(t, "npool"))
 	var c CrashCase
@@ -500,6 +511,7 @@ func drawCrash(t *rapid.T) CrashCase {
 		}
 		c.Set = c.Set[:len(c.Set)-1]
 	}
+	c.Symlink = rapid.IntRange(0, 3).Draw(t, "symlink") == 0
 	return c
 }
 
@@ -547,8 +559,17 @@ func runCrash(c CrashCase) *pbt.Result {
 		extraPad = 6000 // about 370 KiB (the writer is quadratic in the number of lines): widens the window the polling reader can hit
 	}
 	oldContent := c.content(extraPad)
-	if err := writeAt(path, oldContent, baseSec*1e9); err != nil {
+	realPath := path
+	if c.Symlink {
+		realPath = filepath.Join(home, "shared-"+confName)
+	}
+	if err := writeAt(realPath, oldContent, baseSec*1e9); err != nil {
 		panic(err)
+	}
+	if c.Symlink {
+		if err := os.Symlink(realPath, path); err != nil {
+			return &pbt.Result{Classes: []string{"skipped:no-symlinks-here"}}
+		}
 	}
 	spec := setValuesSpec{Home: home, Prefix: c.Prefix, Exclude: c.Exclude, Set: c.Set}
 	if !haveStrace() {
@@ -558,10 +579,13 @@ func runCrash(c CrashCase) *pbt.Result {
 	wrapper := []string{"strace", "-f", "-s", "1048576", "-xx", "-o", logp, "-e", "trace=" + straceSet}
 	out, exit, timedOut, err := runHelper("setvalues", spec, work, wrapper, nil, 120*time.Second)
 	if err != nil {
-		panic(fmt.Sprintf("harness: cannot run the helper under strace: %v", err))
+		return traceUnusable("cannot run the helper under strace: %v", err)
 	}
-	if timedOut || exit != 0 || !strings.Contains(out, "C18HELPER-END") {
-		panic(fmt.Sprintf("harness: helper under strace failed (exit %d, timeout %v): %.2000s", exit, timedOut, out))
+	if timedOut {
+		return traceUnusable("the traced helper did not finish within 120 s")
+	}
+	if exit != 0 || !strings.Contains(out, "C18HELPER-END") {
+		panic(fmt.Sprintf("harness: helper under strace failed (exit %d): %.2000s", exit, out))
 	}
 	newB, err := os.ReadFile(path)
 	if err != nil {
@@ -577,15 +601,20 @@ func runCrash(c CrashCase) *pbt.Result {
 	}
 	calls, err := parseStrace(string(logB))
 	if err != nil {
-		panic(fmt.Sprintf("harness: strace log: %v", err))
+		return traceUnusable("strace log: %v", err)
 	}
 	m := &fsModel{root: home, cwd: work, names: map[string]*inode{path: {data: []byte(oldContent)}}, fds: map[int]*fdesc{}}
+	if c.Symlink {
+		// the model has no links of its own: both names refer to one file until one of them is replaced, which is how a
+		// reader of either name sees it (nothing here unlinks or renames the link's target)
+		m.names[realPath] = m.names[path]
+	}
 	onPath, points := 0, 0
 	var trail []string
 	for i, sc := range calls {
 		touched, err := m.apply(sc, path)
 		if err != nil {
-			panic(fmt.Sprintf("harness: %v (call %d: %.300s)", err, i, sc.Raw))
+			return traceUnusable("%v (call %d: %.300s)", err, i, sc.Raw)
 		}
 		if touched {
 			onPath++
@@ -603,7 +632,9 @@ func runCrash(c CrashCase) *pbt.Result {
 		}
 	}
 	if ino := m.names[path]; ino == nil || string(ino.data) != newContent {
-		panic("harness: the replayed model does not end with the content found on disk")
+		// the write completed correctly (checked above against the file itself), but the recorded trace does not
+		// explain it: a line was lost or is of a kind the model does not know. No verdict on the crash points of this case.
+		return traceUnusable("the replayed trace does not end with the content found on disk (%d calls, %d on the path)", len(calls), onPath)
 	}
 	crashMu.Lock()
 	crashCalls += int64(points)
@@ -614,7 +645,7 @@ func runCrash(c CrashCase) *pbt.Result {
 	pbt.Extra("write-crash-points", "max_syscalls_on_the_path", crashMaxOnPath)
 	pbt.Extra("write-crash-points", "mode", "strace replay")
 	crashMu.Unlock()
-	classes := []string{"mode:strace"}
+	classes := []string{"mode:strace", fmt.Sprintf("symlinked-path=%v", c.Symlink)}
 	if oldContent == newContent {
 		classes = append(classes, "write:content-unchanged")
 	}
@@ -700,7 +731,7 @@ func runCrashPolling(c CrashCase, spec setValuesSpec, work, path, oldContent str
 
 var crashSpec = pbt.Register(pbt.Spec[CrashCase]{
 	Prop: "C18", Name: "write-crash-points",
-	Rule:  "file of 0-8 generated lines plus 0/40/400/3000 padding comment lines, one SetValues of 1-3 pairs (existing/new keys, empty = remove, optional prefix) performed by a helper process under strace -f; the recorded open/read/write/truncate/rename/unlink/link/close calls are replayed against a name/inode/descriptor model and after every call the configuration path must exist and hold exactly the old or exactly the new content; the completed file is also judged by the write-back oracle; non-trivial = at least 3 recorded calls on the configuration path and the content changed",
+	Rule:  "file of 0-8 generated lines plus 0/40/400/3000 padding comment lines, one SetValues of 1-3 pairs (existing/new keys, empty = remove, optional prefix) performed by a helper process under strace -f; in one case of four the configuration path is a symbolic link to a file next to it; the recorded open/read/write/truncate/rename/unlink/link/close calls are replayed against a name/inode/descriptor model and after every call the configuration path must exist and hold exactly the old or exactly the new content; the completed file is also judged by the write-back oracle; non-trivial = at least 3 recorded calls on the configuration path and the content changed",
 	Quick: 120, Thorough: 6400,
 	Draw: drawCrash, Run: runCrash,
 })
